@@ -59,6 +59,19 @@ DiagHist(R, mv) ==
                    1, n - 1), n)
 LowerDiagHist(R, mv) ==
   LET n == Len(R) IN HistOf(Concat(LAMBDA k : RunLens(LowerDiag(R, mv, k), 1), 1, n - 1), n)
+\* --- rectangular (cross recurrence) matrices: N rows, M columns, no missing cells ------------------------
+\* diagonal with offset k (column = row + k), k = -(N-1) .. M-1
+XDiagLine(R, k) == LET N == Len(R)  M == Len(R[1])
+                       lo == IF k < 0 THEN 1 - k ELSE 1
+                       hi == IF N < M - k THEN N ELSE M - k
+                   IN [m \in 1..(hi - lo + 1) |-> R[lo + m - 1][lo + m - 1 + k]]
+XDiagLens(R, withmain) == LET N == Len(R)  M == Len(R[1]) IN
+  Concat(LAMBDA q : IF q = N /\ ~withmain THEN <<>> ELSE RunLens(XDiagLine(R, q - N), 1), 1, N + M - 1)
+XRowLens(R, col) == Concat(LAMBDA a : RunLens(R[a], col), 1, Len(R))
+XColLens(R, col) == Concat(LAMBDA b : RunLens([a \in 1..Len(R) |-> R[a][b]], col), 1, Len(R[1]))
+\* a histogram of any length holds exactly these run lengths
+HistHolds(h, lens) == /\ \A l \in 1..Len(h) : h[l] = CountIn(lens, l)
+                      /\ \A p \in 1..Len(lens) : lens[p] <= Len(h)
 \* declarative variants (small matrices)
 VertHistDecl(R, mv, col) ==
   LET n == Len(R) IN [l \in 1..n |-> Sum(LAMBDA i : CountDecl(Row(R, mv, i), col, l), 1..n)]
